@@ -166,6 +166,11 @@ func (s *Server) serve(i int, c net.Conn) {
 			switch {
 			case cmd == "replconf" && len(args) == 3 && strings.ToLower(args[1]) == "listening-port":
 				c.Write([]byte("+OK\r\n"))
+			case cmd == "auth":
+				s.mu.Lock()
+				s.events = append(s.events, Event{Kind: "auth", Conn: i, T: now, Text: strings.Join(args[1:], " ")})
+				s.mu.Unlock()
+				c.Write([]byte("+OK\r\n"))
 			case cmd == "replconf" && len(args) == 3 && strings.ToLower(args[1]) == "ack":
 				v, _ := strconv.ParseInt(args[2], 10, 64)
 				s.mu.Lock()
